@@ -399,7 +399,7 @@ def c13(tier, seed):
                 for n in ((2, 4, 8, 16) if quick else (2, 3, 4, 6, 8, 12, 16, 16))]
 
     def retention(tier_, seed_):
-        return [{'flavour': f, 'kind': k, 'n': n} for f in ('func', 'func0', 'view', 'view_ctx', 'schema', 'typed')
+        return [{'flavour': f, 'kind': k, 'n': n} for f in ('func', 'func0', 'func_exc', 'view', 'view_ctx', 'view_typed', 'view_schema', 'schema', 'typed')
                 for k in ('sync', 'async') for n in ((1, 10, 200) if quick else (1, 10, 1000))]
     return dict(stages=[
         Stage('history', mc=('HistoryMC', 'History_%s.cfg' % t), emit=('HistoryMC', 'History_%s_emit.cfg' % t),
